@@ -121,7 +121,7 @@ def sync_lockfile(crate=KANI_CRATE):
 
 
 def run_kani(module, tier, profile="dev", jobs=None, timeout_s=None, extra_filters=None,
-             crate=KANI_CRATE, exact=None, tag=None):
+             crate=KANI_CRATE, exact=None, tag=None, filters=None):
     """Run all harnesses of `module` for `tier`; returns (list[Harness], raw_info)."""
     ensure_dirs()
     sync_lockfile(crate)
@@ -140,7 +140,7 @@ def run_kani(module, tier, profile="dev", jobs=None, timeout_s=None, extra_filte
             cmd += ["--harness", h]
         cmd += ["--exact"]
     else:
-        for s in selectors(module, tier) + (extra_filters or []):
+        for s in (filters or selectors(module, tier)) + (extra_filters or []):
             cmd += ["--harness", s]
     t0 = time.time()
     with open(log_path, "w") as lf:
